@@ -5,7 +5,9 @@
 // nil/non-nil StructuredContent x IsError on legacy and current sessions), ioConn read/write with
 // batches (frames also in foreign string spellings) over an
 // in-memory stream, writeEvent/scanEvents, and byte-level fuzz of the decoders.
-// Streams: TestVerifWireMcp (C19), TestVerifWireBatch (C02: ioConn batch bookkeeping).
+// Streams: TestVerifWireMcp (C19), TestVerifWireBatch (C02: ioConn batch bookkeeping; C03: order in which
+// Read hands the messages of a batch out). The frame ops (io.rb, h.post, live.io, live.cli), the decode
+// fuzz of the protocol types (r.fuzz, r.case, r.irm) and the child-process runner are in zz_verif_wire2_test.go.
 package mcp
 
 import (
@@ -1657,7 +1659,22 @@ func runWire(t *testing.T, out *verifOut, stream string, gen func(newCase func(n
 			w.io.conn = nil
 		}
 		return func(op string, tags ...string) string {
+			// watchdog: an op that does not come back (an SDK call that blocks for ever on the harness
+			// goroutine) is recorded as the observation "hang" and the run ends there, instead of
+			// sitting out the test timeout
+			finished := make(chan struct{})
+			go func() {
+				select {
+				case <-finished:
+				case <-time.After(3 * time.Minute):
+					out.line(name, op, "hang", strings.Fields(op)[0], "hang")
+					out.close()
+					fmt.Fprintf(os.Stderr, "verif: op did not return within 3 minutes: %.300s\n", op)
+					os.Exit(3)
+				}
+			}()
 			obs := w.apply(op)
+			close(finished)
 			kind := strings.Fields(op)[0]
 			tags = append([]string{kind}, tags...)
 			if obs == "panic" {
@@ -2181,6 +2198,8 @@ func TestVerifWireMcp(t *testing.T) {
 			}
 		}
 		// frames that carry no message, through every reader of peer data, in every layout
+		var liveOps []string
+		var liveOpTags [][]string
 		{
 			frames := degenerateFrames()
 			valid := []jv{okNotif, okPing, jArr(okNotif, okPing), jArr(okPing)}
@@ -2258,11 +2277,10 @@ func TestVerifWireMcp(t *testing.T) {
 					liveTags = append(liveTags, []string{"live:io", "frame:generated"})
 				}
 			}
+			// run now (one child process), recorded at the end of the stream: what a live session shows of
+			// a broken reader is the least specific observation, the in-process ops name the clause first
 			wirePrefetch(live)
-			step = newCase("frame-live")
-			for i, op := range live {
-				step(op, liveTags[i]...)
-			}
+			liveOps, liveOpTags = live, liveTags
 		}
 		// decode fuzz of every protocol type: null at every position of a generated value, every
 		// member name in another case
@@ -2485,6 +2503,10 @@ func TestVerifWireMcp(t *testing.T) {
 				}
 				step("c.fuzz "+what+" x"+hx(b), "fuzz:"+strings.Split(what, "/")[0])
 			}
+		}
+		step = newCase("frame-live")
+		for i, op := range liveOps {
+			step(op, liveOpTags[i]...)
 		}
 	})
 }
